@@ -26,6 +26,22 @@ add("C19", "other",
     "on the emitted Aggregate lambdas (translation validation part).",
     "symbolic execution of the real code (CrossHair -> z3) + SMT equivalence of emitted folds (z3)", "S+T", "DESIGN.md 3/C19", S_NOTE)
 
+add("C15", "other",
+    "Bounded symbolic execution (CrossHair/z3) of extract_metadata and remove_empty_metadata on 4 wrapper placements with 4 wrappers each: "
+    "dictionary sizes (0..2) and values (unbounded int, str len<=2) are solver variables; result compared with a reference stripper, the input "
+    "tree's identity snapshot must be unchanged, extracted list must respect outer-before-inner. Every partition must be confirmed over all paths.",
+    "symbolic execution of the real code (CrossHair -> z3), per-partition 'confirmed over all paths'", "S", "DESIGN.md 3/C15", S_NOTE)
+add("C16", "model_checking",
+    "Bounded model checking of QMetaData histories: all histories of 3 operations (4 in thorough) over 7 operation kinds and every parent choice "
+    "(branching), with the metadata values as unbounded solver integers; after each step lookups are compared with a reference inheritance map and "
+    "the AST/dump/hash received by executors with the twin history without QMetaData. Verdict per partition from CrossHair/z3 over all paths.",
+    "symbolic execution of the real code over symbolic histories (CrossHair -> z3)", "S", "DESIGN.md 3/C16", S_NOTE)
+add("C17", "other",
+    "Bounded symbolic execution (CrossHair/z3) of change_extension_functions_to_calls with two fully symbolic attribute names (any string up to 12 "
+    "characters) at different depths in 6 program shapes x 0..2 extra arguments; oracle: reference bottom-up conversion, idempotence, no method-form "
+    "operator left. Semantic equality of both forms is decided by z3 translation validation on mixed-form programs.",
+    "symbolic execution of the real code (CrossHair -> z3) + SMT translation validation (z3)", "S+T", "DESIGN.md 3/C17", S_NOTE)
+
 NOT_YET = {}
 
 
